@@ -2,7 +2,11 @@ import os, sys
 sys.path.insert(0, os.path.dirname(os.path.abspath(__file__)))
 import vlib
 PLAN = {
-    "plain": ["drv_oq_seq"],
+    "plain": ["drv_oq_seq", "drv_uf_seq"],
+    "sched": ["drv_oq_conc", "drv_rsession", "drv_wsession"],
+    "asan": ["drv_rsession", "drv_wsession"],
+    "pasan": ["drv_life"],
+    "tsan": ["drv_native"],
 }
 for variant, drivers in PLAN.items():
     drivers = [d for d in drivers if os.path.exists(os.path.join(vlib.HARNESS, d + ".cpp"))]
